@@ -229,6 +229,9 @@ func Edit(t *rapid.T, s *Schema, o Opts, protect map[string]bool) string {
 	kinds := []string{"add-column", "drop-column", "modify-type", "modify-null", "modify-default", "toggle-generated",
 		"add-index", "drop-index", "modify-index", "change-pk", "add-fk", "drop-fk", "modify-fk", "add-check", "drop-check",
 		"toggle-without-rowid", "toggle-strict", "add-table", "drop-table", "add-column", "add-index", "modify-type"}
+	if len(o.Kinds) > 0 {
+		kinds = o.Kinds
+	}
 	kind := pick(t, "edit", kinds)
 	ti := rapid.IntRange(0, len(s.Tables)-1).Draw(t, "etable")
 	tb := &s.Tables[ti]
